@@ -19,7 +19,7 @@ EXPLANATION = (
     "flow into that branch; no handler generates the same child twice, and the `if` test is spliced in twice only as a bare "
     "name; inline expansion templates use each parameter once, in order, unconditionally."
 )
-DECIDES = "sequencing-soundness of the generator's combinators and handlers, child order, branch-locality of hoisted statements, once-ness (incl. inline templates)"
+DECIDES = "sequencing-soundness of the generator's combinators and handlers, child order, branch-locality of hoisted statements, once-ness (incl. inline templates), a generated child placed at most once per path, core macros evaluating their operands once (template paths, recursive expansion, template loops), keyword-argument order"
 DECLINED = "CPython's own evaluation order; map-literal key/value interleaving, set-literal member order and metadata-vs-elements order (not fixed by the statement)"
 TRUSTED = ["Python evaluates call func, then positional args left to right, then keyword values; statements in order"]
 ASSUMPTIONS = []
